@@ -1684,6 +1684,8 @@ class FortranFile:
                         kind=obj_info.result.kind,
                     )
                     file_ast.add_variable(new_obj)
+                    # Documentation that follows documents the function
+                    file_ast.last_obj = new_fun
                 log.debug("%s !!! FUNCTION - Ln:%d", line, line_no)
 
             elif obj_type == "block":
